@@ -125,22 +125,16 @@ def decide(prop, tier, seed):
         if r["status"] != "ok":
             undecided.append((r["unit"], r["reason"]))
     by_name = {o["name"]: o for o in obs}
-    # Extraction drift: a shim rewrite that applied to a function on the unchanged tree and applies less often now
-    # leaves std calls without a specification in the Verus input; a failed proof of that function is then
-    # undecided, not a violation (Kani units run the real std code and are not affected)
-    drift = {}
+    # A Verus proof that fails in a function which still contains a std call without specification (a shim rewrite did
+    # not apply, e.g. after a rename) is undecided, not a violation.  Kani units run the real std code and are unaffected.
     for r in results:
         if r["backend"] != "verus":
             continue
-        base_rw = baseline.get("_rw", {}).get(r["unit"], {})
-        for item, counts in (r.get("rw_counts") or {}).items():
-            for pat, c in base_rw.get(item, {}).items():
-                if counts.get(pat, 0) < c:
-                    drift.setdefault((r["unit"], item), []).append(pat)
-    for o in obs:
-        if o["backend"] == "verus" and o["status"] == "failed" and (o["unit"], o["fn"]) in drift:
-            o["status"] = "undecided"
-            undecided.append((o["unit"], "extraction drift in %s: rewrite /%s/ matched on the unchanged tree but not now; failed obligation %s is not decided by this unit" % (o["fn"], drift[(o["unit"], o["fn"])][0][:60], o["name"])))
+        for o in r["obligations"]:
+            calls = (r.get("unspecified_calls") or {}).get(o["fn"])
+            if calls and o["status"] == "failed" and prop in o["props"]:
+                o["status"] = "undecided"
+                undecided.append((o["unit"], "%s calls std::%s, for which the Verus input has no specification (shim rewrite did not apply); failed obligation %s is not decided by this unit" % (o["fn"], "/".join(calls), o["name"])))
     violations = []
     known_lines = []
     for o in obs:
